@@ -62,8 +62,14 @@ def opValidate : Handler := fun j => do
       | _, _ => throw "env must be {num:e} or {arr:[..]}"
     return resJson intListJson (mkGridEnv (← getInt (← field j "w")) (← getInt (← field j "h")) (← getInt (← field j "d")) ce)
   | "env_map" =>
-    return resJson unitJson (defaultStateEnvCheck (← getNat (← field j "nspecies")) (← getNat (← field j "nenv"))
-      (← getIntList (← field j "cell_env")))
+    let given (k : String) : Except String Bool := match fieldOpt j k with
+      | some v => getBool v
+      | none => pure false
+    return resJson unitJson (systemEnvCheck (← given "state_given") (← given "chem_given") (← getNat (← field j "nspecies"))
+      (← getNat (← field j "nenv")) (← getIntList (← field j "cell_env")))
+  | "accessor" =>
+    return resJson (fun (o : Option Int) => match o with | some i => intJson i | none => Json.null)
+      ((← getSpace (← field j "space")).accessorCheck (← getStr (← field j "accessor")) (← getPos (← field j "pos")))
   | "cell_index" => return resJson intJson ((← getSpace (← field j "space")).cellIndex (← getPos (← field j "pos")))
   | "state_index" =>
     return resJson intJson (stateIndexOf (← getOptLabels (← field j "labels")) (← getSpace (← field j "space"))
@@ -76,6 +82,8 @@ def opValidate : Handler := fun j => do
       (← getSpace (← field j "space")) (← getSpeciesRef (← field j "species")) (← getPos (← field j "pos")))
   | "field" =>
     return resJson uvalJson (setField (← getStr (← field j "field")) (← getSys (← field j "sys")) (← getScalar (← field j "v")))
+  | "field_dim" =>
+    return resJson uvalJson (processScalar (← getSys (← field j "sys")) (← getDim (← field j "dim")) (← getScalar (← field j "v")))
   | "sys" =>
     return resJson sysJson (mkSys (← getStr (← field j "space")) (← getStr (← field j "time")) (← getStr (← field j "quantity")))
   | "index_map" => return resJson unitJson (checkIndexMap (← getIntList (← field j "im")) (← getIntList (← field j "env")))
